@@ -105,7 +105,7 @@ def build_unit(bdir, unit, log):
     pats = [x for x in (unit.cuts, unit.noinline) if x]
     if pats:
         txt, n = add_noinline(txt, '|'.join('(?:%s)' % x for x in pats))
-        if n == 0 and unit.cuts: raise RuntimeError('cut pattern matched no function in unit %s' % unit.name)
+        if n == 0 and unit.cuts and not all(a.endswith('?') for a in unit.cutmap): raise RuntimeError('cut pattern matched no function in unit %s' % unit.name)
         open(b.p('.O0.ll'), 'w').write(txt)
     r = sh(['opt-14'] + OPT_FLAGS + [b.p('.O0.ll'), '-o', b.p('.ll')])
     if r.returncode != 0: raise RuntimeError('opt failed for %s:\n%s' % (unit.name, r.stdout[-4000:]))
